@@ -52,7 +52,40 @@ type scenResult struct {
 	Poisoned    bool         `json:"poisoned,omitempty"`
 }
 
+// stableCheck makes an oracle's verdict independent of Go's randomised map iteration inside
+// the oracle itself (an oracle that returns "the first problem it finds" while ranging over a
+// map): when it reports anything, it is evaluated several more times on the same result and
+// the findings are united by key, sorted.
+func stableCheck(check func(r *rt.Result) []rt.Finding) func(r *rt.Result) []rt.Finding {
+	return func(r *rt.Result) []rt.Finding {
+		fs := check(r)
+		if len(fs) == 0 {
+			return nil
+		}
+		seen := map[string]rt.Finding{}
+		for i := 0; i < 12; i++ {
+			for _, f := range fs {
+				if _, ok := seen[f.Key]; !ok {
+					seen[f.Key] = f
+				}
+			}
+			fs = check(r)
+		}
+		keys := make([]string, 0, len(seen))
+		for k := range seen {
+			keys = append(keys, k)
+		}
+		sort.Strings(keys)
+		out := make([]rt.Finding, 0, len(keys))
+		for _, k := range keys {
+			out = append(out, seen[k])
+		}
+		return out
+	}
+}
+
 func runScenario(t *testing.T, sc Scenario) scenResult {
+	sc.Check = stableCheck(sc.Check)
 	start := time.Now()
 	res := scenResult{Name: sc.Name, Bound: -1}
 	// the budget is CPU time of this (single-threaded) worker, so that a loaded machine does
